@@ -156,6 +156,8 @@ func runC13(c *Ctx) {
 	c.c13MemberLists()
 	c.c13WholePayload()
 	c.c13NoReacquire()
+	c.c13GlobalsSetOnce()
+	c.c13SharedListsCopied()
 }
 
 // c13Formats: "delivered intact". A message that travels through the format-string position of a printf-like
@@ -858,4 +860,181 @@ func c13Join(a, b string) string {
 		return a
 	}
 	return a + "." + b
+}
+
+// c13GlobalsSetOnce (L11): "no data race occurs … producers mixing Log, LogError, SetLogSource and Append". A logger that is
+// appended to a composite is created while the others log: whatever a constructor (or any other function of the logging
+// packages) writes must belong to the logger being built. A package-level variable — of these packages or, worse, a
+// setting of the logging library underneath, which every logger reads as it logs — is written only by package
+// initialisation or inside a sync.Once.
+func (c *Ctx) c13GlobalsSetOnce() {
+	c.rule("L11", "package-level variables (own or of another package) are written only by package initialisation or inside the function handed to a sync.Once: creating a logger never writes what other loggers read", 1)
+	n := 0
+	for _, rel := range c13Pkgs {
+		for _, f := range c.srcFuncs(rel) {
+			allInstrs(f, func(in ssa.Instruction) {
+				st, ok := in.(*ssa.Store)
+				if !ok {
+					return
+				}
+				g := c13GlobalRoot(st.Addr)
+				if g == nil {
+					return
+				}
+				n++
+				key := fname(outermost(f)) + "/writes:" + g.Pkg.Pkg.Name() + "." + g.Name()
+				switch {
+				case f.Name() == "init" || strings.HasPrefix(f.Name(), "init#") || (f.Parent() == nil && f.Synthetic != ""):
+					c.ok("L11", key, c.ipos(st), "package initialisation")
+				case c13OnlyRunByOnce(f):
+					c.ok("L11", key, c.ipos(st), "inside the function handed to a sync.Once")
+				default:
+					c.violate("L11", key, c.ipos(st), "package-level variable "+g.Pkg.Pkg.Name()+"."+g.Name()+" is written by "+fname(outermost(f))+", which runs whenever it is called (creating a logger, say): loggers that are logging at that moment read it — a data race, under which a message can be emitted with the wrong field names")
+				}
+			})
+		}
+	}
+	if n == 0 {
+		c.info("L11", "logs/no-write-to-a-package-level-variable", "-", "no function of the logging packages writes a package-level variable")
+	}
+	c.Extra["package_level_writes"] = n
+}
+
+func c13GlobalRoot(v ssa.Value) *ssa.Global {
+	for {
+		switch x := v.(type) {
+		case *ssa.Global:
+			return x
+		case *ssa.FieldAddr:
+			v = x.X
+		case *ssa.IndexAddr:
+			v = x.X
+		default:
+			return nil
+		}
+	}
+}
+
+// c13OnlyRunByOnce: f is a function literal whose only use is as the argument of (*sync.Once).Do.
+func c13OnlyRunByOnce(f *ssa.Function) bool {
+	if f.Parent() == nil {
+		return false
+	}
+	used, once := 0, 0
+	allInstrs(f.Parent(), func(in ssa.Instruction) {
+		var ops []*ssa.Value
+		for _, o := range in.Operands(ops) {
+			if *o == nil {
+				continue
+			}
+			v := *o
+			if mc, ok := v.(*ssa.MakeClosure); ok {
+				v = mc.Fn
+			}
+			if v != ssa.Value(f) {
+				continue
+			}
+			if _, isMC := in.(*ssa.MakeClosure); isMC {
+				continue // counted where the closure value is used
+			}
+			used++
+			if cc := callCommon(in); cc != nil && calleeFull(cc) == "(*sync.Once).Do" {
+				once++
+			}
+		}
+	})
+	return used > 0 && used == once
+}
+
+// c13SharedListsCopied (L12): a slice read back from shared storage (the sync.Map of values a logr sink hands on to the sinks
+// derived from it) is never appended to in place: append writes into the spare capacity of the backing array that every
+// holder of the list shares — two sinks derived concurrently from one parent write the same slot.
+func (c *Ctx) c13SharedListsCopied() {
+	c.rule("L12", "a slice obtained from shared storage (a sync.Map value) is copied before it is appended to", 1)
+	n := 0
+	for _, rel := range c13Pkgs {
+		for _, f := range c.srcFuncs(rel) {
+			allInstrs(f, func(in ssa.Instruction) {
+				cl, ok := in.(*ssa.Call)
+				if !ok || calleeFull(&cl.Call) != "builtin.append" || len(cl.Call.Args) == 0 {
+					return
+				}
+				shared := ""
+				any := false
+				var leaves []ssa.Value
+				var expand func(v ssa.Value, depth int)
+				expand = func(v ssa.Value, depth int) {
+					for _, l := range sources(v, deriveOpts{}) {
+						// v, ok := x.([]string): the value comes from what was asserted
+						if ex, isEx := l.(*ssa.Extract); isEx && depth < 4 {
+							if ta, isTA := ex.Tuple.(*ssa.TypeAssert); isTA {
+								expand(ta.X, depth+1)
+								continue
+							}
+						}
+						leaves = append(leaves, l)
+					}
+				}
+				expand(cl.Call.Args[0], 0)
+				for _, l := range leaves {
+					var src *ssa.Call
+					switch x := l.(type) {
+					case *ssa.Extract:
+						src, _ = x.Tuple.(*ssa.Call)
+					case *ssa.Call:
+						src = x
+					case *ssa.Parameter:
+						// the value parameter of a sync.Map Range callback
+						if x.Parent().Parent() != nil && c13OnlyArgOf(x.Parent(), "(*sync.Map).Range") {
+							shared = "sync.Map.Range"
+						}
+					}
+					if src != nil {
+						any = true
+						switch calleeFull(&src.Call) {
+						case "(*sync.Map).Load", "(*sync.Map).LoadOrStore", "(*sync.Map).LoadAndDelete", "(*sync.Map).Swap":
+							shared = calleeFull(&src.Call)
+						}
+					}
+				}
+				// instances: the appends of functions that read a sync.Map, whatever their operand
+				readsMap := false
+				allInstrs(outermost(f), func(i2 ssa.Instruction) {
+					if cc := callCommon(i2); cc != nil && strings.HasPrefix(calleeFull(cc), "(*sync.Map).Load") {
+						readsMap = true
+					}
+				})
+				if !any && shared == "" && !readsMap {
+					return
+				}
+				n++
+				c.check(shared == "", "L12", fname(outermost(f))+"/append", c.ipos(cl), "the slice appended to is not one read back from shared storage",
+					"the slice appended to was obtained from "+shared+": it shares its backing array with every other holder of that value (the sink it was transferred from, the sinks derived from it); appending in place writes into the common spare capacity — a data race between sinks derived concurrently, one of which can end up with the other's element")
+			})
+		}
+	}
+	if n == 0 {
+		c.info("L12", "logs/no-append-to-a-stored-list", "-", "no append whose operand comes from a call")
+	}
+	c.Extra["appends_to_obtained_lists"] = n
+}
+
+func c13OnlyArgOf(f *ssa.Function, callee string) bool {
+	if f.Parent() == nil {
+		return false
+	}
+	found := false
+	allInstrs(f.Parent(), func(in ssa.Instruction) {
+		if cc := callCommon(in); cc != nil && calleeFull(cc) == callee {
+			for _, a := range cc.Args {
+				if mc, ok := a.(*ssa.MakeClosure); ok && mc.Fn == ssa.Value(f) {
+					found = true
+				}
+				if a == ssa.Value(f) {
+					found = true
+				}
+			}
+		}
+	})
+	return found
 }
